@@ -174,6 +174,13 @@ impl Ops {
             .wrapping_add(1442695040888963407);
         (self.choice >> 33) % n
     }
+    /// add this walk's counters into another Ops (the chooser of `other` is
+    /// left untouched)
+    pub fn flush_len_into(&mut self, other: &mut Ops) {
+        for (i, c) in self.n.iter().enumerate() {
+            other.n[i] += *c;
+        }
+    }
     pub fn flush_into(&mut self, frag: &mut monitors::evidence::Frag, prefix: &str) {
         for (i, c) in self.n.iter().enumerate() {
             if *c > 0 {
@@ -246,7 +253,7 @@ fn container_size(n: usize, ops: &mut Ops) {
 // ---------------------------------------------------------------------------
 // write
 
-pub fn write_val<P: TOutputProtocol>(
+pub fn write_val<P: TOutputProtocol + ?Sized>(
     p: &mut P,
     v: &TVal,
     ops: &mut Ops,
@@ -357,7 +364,7 @@ pub fn write_val<P: TOutputProtocol>(
 // length walk (mirrors write_val call for call; uses the same API-variant
 // chooser sequence so `bytes_len` is paired with `write_bytes` etc.)
 
-pub fn len_val<P: TLengthProtocol>(p: &mut P, v: &TVal, ops: &mut Ops) -> usize {
+pub fn len_val<P: TLengthProtocol + ?Sized>(p: &mut P, v: &TVal, ops: &mut Ops) -> usize {
     match v {
         TVal::Bool(b) => {
             ops.hit(Op::bool_len);
@@ -482,7 +489,7 @@ impl From<ThriftException> for ReadErr {
 /// element anyway, this only bounds the harness's own Vec growth).
 const MAX_ELEMS: usize = 1 << 22;
 
-pub fn read_val<P: TInputProtocol>(
+pub fn read_val<P: TInputProtocol + ?Sized>(
     p: &mut P,
     tt: TT,
     hint: Option<&TVal>,
